@@ -2,6 +2,7 @@ import RxProofs.Lemmas.TimedRate
 import RxProofs.Lemmas.TimedMap
 import RxProofs.Lemmas.TimedSim
 import RxProofs.Lemmas.TimedSimSample
+import RxProofs.Lemmas.TimedFeedback
 /-!
 # C16 — rate-limiting operators follow their timing rules
 
@@ -134,5 +135,38 @@ example : sampSim (mergeStable (sampSrcItems [(220, Notif.next 1)] ++ sampTickIt
       = [(220, .next 1)]
     ∧ sampSim (mergeStable (sampTickItems [(220, .tick), (240, .tick)] ++ sampSrcItems [(220, Notif.next 1)])) true {}
       = [(240, .next 1)] := by decide
+
+/-! ## Re-entrant feedback: the consumer pushes an element into the source from inside `on_next`
+
+`tfRunFb` / `sampSimFb` run the nested `on_next` in the state the operator is in when it calls downstream.  The theorems
+say that this is the plain run over the COMBINED arrival sequence (`tfCombined`, `sampCombinedQ`: every echo placed where
+it arrives), for every timeline, every echo set and every delivery counter — so the rules above apply to it. -/
+
+/-- **throttle_first_feedback_rule.**  With feedback, throttle_first obeys the window rule on the combined arrival
+sequence. -/
+theorem throttle_first_feedback_rule {α} (w : Nat) (echo : Nat → Option α) (msgs : TL α) :
+    tfRunFb w echo 0 none msgs = tfSpec w (tfCombined w echo 0 none msgs) := by
+  rw [tf_feedback_eq_combined, throttle_first_rule]
+
+/-- **throttle_first_feedback_inert.**  For a positive window an echo arrives 0 ticks after the element just emitted, so
+it is always dropped: feedback changes nothing. -/
+theorem throttle_first_feedback_inert {α} (w : Nat) (hw : 0 < w) (echo : Nat → Option α) (msgs : TL α) :
+    tfRunFb w echo 0 none msgs = tfRun w none msgs :=
+  tf_feedback_inert w hw echo msgs 0 none
+
+/-- **sample_feedback_combined_partial.**  With feedback, `sample` is the scheduler run (`sampSim`) over the combined
+queue, in which an echo is the source's next message right behind the tick at which it was pushed; hence it is the
+pending element of the following tick unless a newer source element arrives first (`sampOnNext` overwrites `value`).
+*Partial*: the closed form `sampSpec` is proved for queues that are merges of the two pre-scheduled blocks
+(`sample_tie_rule_derived`); an echo sits behind a tick of its own instant, which is not such a merge, so the window form
+of the rule over the combined sequence is not stated — only the queue semantics. -/
+theorem sample_feedback_combined_partial {α} (echo : Nat → Option α) (isEcho : α → Bool) (q : List (Nat × SampItem α))
+    (k : Nat) (srcLive : Bool) (s : SampSt α) :
+    sampSimFb echo isEcho k q srcLive s = sampSim (sampCombinedQ echo isEcho k q srcLive s) srcLive s :=
+  samp_feedback_eq_combined echo isEcho q k srcLive s
+
+example : tfRunFb 100 (fun k => if k = 0 then some "a-echo" else none) 0 none
+      [(300, Notif.next "a"), (350, .next "b"), (400, .next "c"), (450, .next "d")]
+    = [(300, .next "a"), (400, .next "c")] := by decide
 
 end C16
